@@ -7,6 +7,7 @@ import chex
 import jax
 import jax.numpy as jnp
 from hydra.conf import MISSING, dataclass
+from hydra.utils import instantiate
 from jaxtyping import Array, Float
 from loguru import logger
 
@@ -176,10 +177,10 @@ class Solver(ABC):
         # Set up logging
         self.set_verbosity(self.config.verbose)
 
-        logger.info(f"Solver initialized with {problem.name} problem")
-        logger.debug(f"Number of states: {problem.n_states}")
-        logger.debug(f"Number of actions: {problem.n_actions}")
-        logger.debug(f"Number of random events: {problem.n_random_events}")
+        logger.info(f"Solver initialized with {self.problem.name} problem")
+        logger.debug(f"Number of states: {self.problem.n_states}")
+        logger.debug(f"Number of actions: {self.problem.n_actions}")
+        logger.debug(f"Number of random events: {self.problem.n_random_events}")
 
     def _setup_batch_processing(self) -> None:
         """Set up batching for parallel processing."""
